@@ -9,7 +9,7 @@ EXTENDS MCLedger, Json
 CONSTANTS FailOdds,    \* simulation: 1 in FailOdds instructions is drawn from all candidates, the others from the succeeding ones
           EndOdds,     \* simulation: a transaction that could end successfully ends with probability 1/EndOdds
           Weights,     \* simulation: sequence of instruction kinds drawn more often (on top of one entry per enabled kind)
-          Scripts      \* boundary generator: set of [name, items, ops, res]
+          Scripts      \* boundary generator: set of [name, items, ops, res, acc]
 VARIABLES hist,        \* finished transactions
           cur,         \* instructions of the running transaction
           ini,         \* projection of the initial ledger
@@ -31,7 +31,7 @@ Record ==   \* bookkeeping of the step just taken (reads the primed variables of
   ELSE /\ cur' = Append(cur, last'.ins) /\ hist' = hist
 gvars == <<vars, hist, cur, ini>>
 GInit == Init /\ hist = <<>> /\ cur = <<>> /\ ini = Proj(pre)
-NoSc == [name |-> "", items |-> <<>>, ops |-> {}, res |-> {}]
+NoSc == [name |-> "", items |-> <<>>, ops |-> {}, res |-> {}, acc |-> {}]
 Idle == sc = NoSc /\ pos = 0 /\ phase = "none"
 GNext == Next /\ Record /\ UNCHANGED <<ini, sc, pos, phase>>
 GSpec == GInit /\ Idle /\ [][GNext]_<<gvars, sc, pos, phase>>
@@ -64,7 +64,7 @@ SSpec == GInit /\ Idle /\ [][SNext]_<<gvars, sc, pos, phase>>
 \* granule in half-granule steps, all id sets), then a fixed closing sequence that lets a well-formed transaction end.
 \* The full product (limit state) x (instruction kind) x (argument) is enumerated; nothing is sampled.
 bvars == <<gvars, sc, pos, phase>>
-Probes == {i \in UNION {CandOf(Cur, op) : op \in sc.ops} : i.r = "" \/ i.r \in sc.res}
+Probes == {i \in UNION {CandOf(Cur, op) : op \in sc.ops} : (i.r = "" \/ i.r \in sc.res) /\ (i.a = "" \/ i.a \in sc.acc)}
 CloseIns(S) ==
   IF \E k \in DOMAIN S.np : S.np[k].live THEN I("DropNamedProofs", "", "", 0, {}, 0, "", 0)
   ELSE IF S.az # <<>> THEN I("DropAuthZoneRegularProofs", "", "", 0, {}, 0, "", 0)
